@@ -14,6 +14,7 @@ import (
 	"testing"
 	"time"
 
+	"github.com/tjfoc/gmsm/sm2"
 	gx "github.com/tjfoc/gmsm/x509"
 	// every hash the Go ecosystem registers with crypto.RegisterHash is linked into this binary (as it is into many
 	// applications): the x509 package's own Hash numbering overlaps crypto.Hash only in part - x509.SM3 is 16, which is
@@ -40,7 +41,7 @@ var R = hx.NewRecorder("C10", "cases = small PKIs (<=3 roots, <=5 intermediate c
 var cv = rsm2.Std
 
 func TestMain(m *testing.M) {
-	R.Require("cross_signed", "loop", "expired_intermediate", "pathlen_violation", "forged_sig", "nonCA_intermediate", "name_constraint_fail", "name_constraint_fail_mixed_forms", "wildcard", "ip_san", "accept", "reject", "self_issued", "leaf_in_roots", "eku_reject", "critical_ext")
+	R.Require("cross_signed", "loop", "expired_intermediate", "pathlen_violation", "forged_sig", "nonCA_intermediate", "name_constraint_fail", "name_constraint_fail_mixed_forms", "critical_san_uri_only", "intermediate_critical_ext", "uninterpreted_san:critical=true", "wildcard", "ip_san", "accept", "reject", "self_issued", "leaf_in_roots", "eku_reject", "critical_ext")
 	hx.Main(m, R)
 }
 
@@ -170,8 +171,21 @@ func build(t *rapid.T, p *pki) {
 			// subjectDirectoryAttributes, freshestCRL)
 			oids := []asn1.ObjectIdentifier{{1, 2, 3, 4, 5, 99}, {2, 5, 29, 36}, {2, 5, 29, 54}, {2, 5, 29, 33}, {2, 5, 29, 9}, {2, 5, 29, 46}}
 			vals := [][]byte{{5, 0}, {0x30, 0x03, 0x80, 0x01, 0x00}, {2, 1, 0}, {0x30, 0x00}, {0x30, 0x00}, {0x30, 0x00}}
+			if len(s.dns) == 0 && len(s.ips) == 0 {
+				// ... or a subjectAltName, critical, that holds only a name form nobody here interprets (a URI): it cannot
+				// be honoured, so it is as unhandled as an unknown extension
+				oids = append(oids, asn1.ObjectIdentifier{2, 5, 29, 17}, asn1.ObjectIdentifier{2, 5, 29, 17})
+				uri := append([]byte{0x86, 0x10}, "http://a.test/id"...)
+				vals = append(vals, append([]byte{0x30, byte(len(uri))}, uri...), append([]byte{0x30, byte(len(uri))}, uri...))
+			}
 			k := gen.Uniform(t, "critoid", len(oids))
-			tpl.ExtraExtensions = []pkix.Extension{{Id: oids[k], Critical: true, Value: vals[k]}}
+			if len(oids) > 6 && rapid.Bool().Draw(t, "critsan") {
+				k = 6
+			}
+			if oids[k].Equal(asn1.ObjectIdentifier{2, 5, 29, 17}) {
+				R.Class("critical_san_uri_only")
+			}
+			tpl.ExtraExtensions = append(tpl.ExtraExtensions, pkix.Extension{Id: oids[k], Critical: true, Value: vals[k]})
 		}
 		parent := &gx.Certificate{Subject: nameOf(s.issuer)}
 		if p.useSKI {
@@ -307,6 +321,11 @@ func drawPKI(t *rapid.T) *pki {
 				}
 			}
 		}
+		if s.role == "inter" && !s.v1 && gen.OneIn(t, "cacrit", 15) {
+			// an intermediate with a critical extension no verifier here interprets: RFC 5280 6.1.4/6.1.5 - a path through
+			// it cannot be validated (trust anchors are exempt: their extensions are not part of path processing)
+			s.critExt = true
+		}
 		if gen.OneIn(t, "caeku", 12) {
 			s.ekus = []gx.ExtKeyUsage{rapid.SampledFrom([]gx.ExtKeyUsage{gx.ExtKeyUsageClientAuth, gx.ExtKeyUsageAny, gx.ExtKeyUsageServerAuth}).Draw(t, "caekuv")}
 		}
@@ -397,7 +416,7 @@ func drawPKI(t *rapid.T) *pki {
 	if len(leaf.ekus) == 0 && gen.OneIn(t, "unk", 8) {
 		leaf.unkEKU = true
 	}
-	leaf.critExt = gen.OneIn(t, "crit", 25)
+	leaf.critExt = gen.OneIn(t, "crit", 14)
 	if gen.OneIn(t, "leafCA", 16) {
 		leaf.bcValid, leaf.isCA = true, rapid.Bool().Draw(t, "leafisca")
 	}
@@ -509,6 +528,9 @@ func pathValid(path []*spec, q query, countSelfIssued bool) (ok bool, why string
 			}
 			if !mayIssue(c) {
 				return false, fmt.Sprintf("#%d may not sign", c.id)
+			}
+			if c.critExt && c.role == "inter" {
+				return false, fmt.Sprintf("#%d critical extension", c.id)
 			}
 			if c.bcValid && c.maxPath >= 0 {
 				n := 0
@@ -694,6 +716,8 @@ func decide(p *pki, q query) (v verdict, why string, cls []string) {
 			cls = append(cls, "expired_intermediate")
 		case strings.Contains(r, "may not sign"):
 			cls = append(cls, "nonCA_intermediate")
+		case strings.Contains(r, "critical extension"):
+			cls = append(cls, "intermediate_critical_ext")
 		case strings.Contains(r, "name constraint"):
 			cls = append(cls, "name_constraint_fail")
 			for _, c := range p.certs {
@@ -953,6 +977,75 @@ func TestC10_Replay(t *testing.T) {
 		}
 		checkVerify(t, p, query{host: "www.example.com", when: tNow})
 	})
+}
+
+// A subjectAltName that holds only name forms this verifier does not interpret (URI, otherName, directoryName, registeredID):
+// marked critical it cannot be honoured and the certificate is rejected like one with an unknown critical extension -
+// on the leaf and on an intermediate; not critical it is ignored and the common name decides (control).
+func TestC10_UninterpretedSAN(t *testing.T) {
+	root, rootKey := keyOf(1), sm2x.Priv(keyOf(1))
+	mk := func(serial int64, cn string, ca bool, issuerCN string, signer *sm2.PrivateKey, pub *sm2.PublicKey, extra []pkix.Extension) *gx.Certificate {
+		tpl := &gx.Certificate{SerialNumber: big.NewInt(serial), Subject: pkix.Name{CommonName: cn}, NotBefore: tNow.Add(-time.Hour), NotAfter: tNow.Add(time.Hour),
+			SignatureAlgorithm: gx.SM2WithSM3, BasicConstraintsValid: ca, IsCA: ca, ExtraExtensions: extra}
+		if ca {
+			tpl.KeyUsage = gx.KeyUsageCertSign
+		}
+		der, err := gx.CreateCertificate(tpl, &gx.Certificate{Subject: pkix.Name{CommonName: issuerCN}}, pub, signer)
+		if err != nil {
+			t.Fatalf("harness: create %s: %v", cn, err)
+		}
+		c, err := gx.ParseCertificate(der)
+		if err != nil {
+			t.Fatalf("harness: parse %s: %v", cn, err)
+		}
+		return c
+	}
+	rootCert := mk(1, "usan root", true, "usan root", rootKey, sm2x.Pub(root.Pub), nil)
+	forms := map[string][]byte{
+		"uri":           append([]byte{0x86, 0x10}, "http://a.test/id"...),
+		"registered_id": {0x88, 0x03, 0x2a, 0x03, 0x04},
+		"other_name":    {0xa0, 0x0b, 0x06, 0x03, 0x2a, 0x03, 0x04, 0xa0, 0x04, 0x0c, 0x02, 'h', 'i'},
+		"directory":     {0xa4, 0x0f, 0x30, 0x0d, 0x31, 0x0b, 0x30, 0x09, 0x06, 0x03, 0x55, 0x04, 0x03, 0x0c, 0x02, 'd', 'n'},
+	}
+	n := 0
+	for name, gn := range forms {
+		for _, critical := range []bool{true, false} {
+			for _, where := range []string{"leaf", "intermediate"} {
+				n++
+				san := []pkix.Extension{{Id: asn1.ObjectIdentifier{2, 5, 29, 17}, Critical: critical, Value: append([]byte{0x30, byte(len(gn))}, gn...)}}
+				var leafX, interX []pkix.Extension
+				if where == "leaf" {
+					leafX = san
+				} else {
+					interX = san
+				}
+				ik, lk := keyOf(2), keyOf(3)
+				inter := mk(2, "usan inter", true, "usan root", rootKey, sm2x.Pub(ik.Pub), interX)
+				leaf := mk(3, "host.usan.test", false, "usan inter", sm2x.Priv(ik), sm2x.Pub(lk.Pub), leafX)
+				roots, inters := gx.NewCertPool(), gx.NewCertPool()
+				roots.AddCert(rootCert)
+				inters.AddCert(inter)
+				for _, host := range []string{"", "host.usan.test"} {
+					var chains [][]*gx.Certificate
+					var err error
+					if pn := hx.Try(func() {
+						chains, err = leaf.Verify(gx.VerifyOptions{Roots: roots, Intermediates: inters, CurrentTime: tNow, DNSName: host})
+					}); pn != nil {
+						t.Fatalf("Verify panicked: %v", pn.Val)
+					}
+					desc := fmt.Sprintf("subjectAltName with only a %s name, critical=%v, on the %s; host %q", name, critical, where, host)
+					if critical && err == nil {
+						t.Fatalf("Verify ACCEPTED (%d chains) a path through a certificate whose critical subjectAltName it cannot interpret: %s", len(chains), desc)
+					}
+					if !critical && err != nil {
+						t.Fatalf("Verify rejected a path although the uninterpreted subjectAltName is not critical (the common name matches): %s: %v", desc, err)
+					}
+				}
+				R.Case(true, hx.HashKey("usan", name, critical, where), "uninterpreted_san", fmt.Sprintf("uninterpreted_san:critical=%v", critical))
+			}
+		}
+	}
+	R.Subspace("subjectAltName with only {URI, registeredID, otherName, directoryName} x critical/not x leaf/intermediate x {no host, CN host}", int64(n*2), true)
 }
 
 // VerifyHostname alone against the reference matcher.
